@@ -269,6 +269,7 @@ type obRecord struct {
 	Clause string   `json:"clause,omitempty"`
 	Where  string   `json:"where,omitempty"`
 	Tried  []string `json:"tried,omitempty"`
+	Paths  int      `json:"paths,omitempty"`
 }
 
 func cmdCheck(o options, prop string) int {
@@ -344,7 +345,11 @@ func cmdCheck(o options, prop string) int {
 	// partition
 	var claimed, excluded []*Oblig
 	for _, ob := range obs {
-		if _, u := unclaimed[ob.Name]; u {
+		_, u := unclaimed[ob.Name]
+		if ob.Group != "" {
+			_, u = unclaimed[ob.Group]
+		}
+		if u {
 			excluded = append(excluded, ob)
 		} else {
 			claimed = append(claimed, ob)
@@ -363,36 +368,94 @@ func cmdCheck(o options, prop string) int {
 	var knownNames []string
 	replayDir := filepath.Join(o.out, "replays", prop)
 	os.MkdirAll(replayDir, 0o755)
+	// obligations explored path by path form groups: a group is discharged when every member is
+	// (a reachability group: when some member is reachable)
+	type group struct {
+		name    string
+		members []int
+	}
+	var groups []*group
+	gidx := map[string]*group{}
 	for i, ob := range claimed {
-		r := results[i]
-		solverTime += r.TimeS
-		q := ob.Query(false)
-		rec := obRecord{Name: ob.Name, Class: ob.Class, Status: r.Status, Solver: r.Solver, Second: r.Second, TimeS: r.TimeS, Bytes: len(q), Clause: ob.Text, Where: fmt.Sprintf("%s:%d", shortFile(ob.Pos.Filename), ob.Pos.Line), Tried: r.Tried}
-		okay := false
-		if ob.Vacuity {
-			// reachability: anything but unsat is acceptable (unknown: not shown vacuous)
-			okay = r.Status != "unsat"
-			if r.Status == "unsat" {
-				rec.Status = "vacuous"
-			} else {
-				rec.Status = "reachable(" + r.Status + ")"
+		gn := ob.Name
+		if ob.Group != "" {
+			gn = ob.Group
+		}
+		g := gidx[gn]
+		if g == nil {
+			g = &group{name: gn}
+			gidx[gn] = g
+			groups = append(groups, g)
+		}
+		g.members = append(g.members, i)
+	}
+	nObligations := len(groups)
+	for _, g := range groups {
+		first := claimed[g.members[0]]
+		okay := !first.Vacuity
+		if first.Vacuity {
+			okay = false
+		}
+		failIdx := -1
+		var tsum float64
+		var bytes int
+		solver := ""
+		for _, i := range g.members {
+			ob, r := claimed[i], results[i]
+			solverTime += r.TimeS
+			tsum += r.TimeS
+			bytes += len(ob.Query(false))
+			if ob.Vacuity {
+				if r.Status != "unsat" {
+					okay = true
+					solver = r.Solver
+				}
+				continue
 			}
-		} else {
-			okay = r.Status == "unsat"
+			if r.Status != "unsat" {
+				okay = false
+				if failIdx < 0 {
+					failIdx = i
+				}
+			} else {
+				solver = r.Solver
+			}
+		}
+		if first.Vacuity && !okay {
+			failIdx = g.members[0]
+		}
+		ob := first
+		r := results[g.members[0]]
+		if failIdx >= 0 {
+			ob, r = claimed[failIdx], results[failIdx]
+		}
+		rec := obRecord{Name: g.name, Class: ob.Class, Status: r.Status, Solver: r.Solver, Second: r.Second, TimeS: tsum, Bytes: bytes, Clause: ob.Text, Where: fmt.Sprintf("%s:%d", shortFile(ob.Pos.Filename), ob.Pos.Line), Tried: r.Tried}
+		if len(g.members) > 1 {
+			rec.Paths = len(g.members)
+		}
+		if first.Vacuity {
+			if okay {
+				rec.Status = "reachable"
+			} else {
+				rec.Status = "vacuous"
+			}
+		} else if okay {
+			rec.Status = "unsat"
+			rec.Solver = solver
 		}
 		if okay {
 			discharged++
-			perSolver[r.Solver]++
+			perSolver[rec.Solver]++
 			recs = append(recs, rec)
 			continue
 		}
 		// known finding?
 		matched := false
 		for _, f := range findings {
-			if f.Kind == "finding" && f.Property == prop && f.Obligation == ob.Name {
+			if f.Kind == "finding" && f.Property == prop && f.Obligation == g.name {
 				matched = true
-				knownLines = append(knownLines, fmt.Sprintf("KNOWN-FINDING: property=%s obligation=%s %s", prop, ob.Name, f.Text))
-				knownNames = append(knownNames, ob.Name)
+				knownLines = append(knownLines, fmt.Sprintf("KNOWN-FINDING: property=%s obligation=%s %s", prop, g.name, f.Text))
+				knownNames = append(knownNames, g.name)
 			}
 		}
 		recs = append(recs, rec)
@@ -400,11 +463,12 @@ func cmdCheck(o options, prop string) int {
 			continue
 		}
 		violations++
-		path := filepath.Join(replayDir, sanitizeFile(ob.Name)+".json")
+		q := ob.Query(false)
+		path := filepath.Join(replayDir, sanitizeFile(g.name)+".json")
 		rp := map[string]any{
-			"property": prop, "obligation": ob.Name, "class": ob.Class, "clause": ob.Text,
+			"property": prop, "obligation": g.name, "class": ob.Class, "clause": ob.Text,
 			"where": rec.Where, "status": rec.Status, "solver": r.Solver, "solver_output": truncate(r.Output, 4000),
-			"model": r.Model, "tried": r.Tried, "replayed_on_real_code": false,
+			"model": r.Model, "tried": r.Tried, "replayed_on_real_code": false, "failing_member": ob.Name,
 		}
 		suffix := " no-failing-input-found"
 		if r.Model != nil {
@@ -419,7 +483,7 @@ func cmdCheck(o options, prop string) int {
 		writeJSON(path, rp)
 		os.WriteFile(strings.TrimSuffix(path, ".json")+".smt2", []byte(q), 0o644)
 		fmt.Printf("VIOLATION property=%s replay=%s%s\n", prop, path, suffix)
-		fmt.Printf("  obligation %s [%s] %s at %s\n", ob.Name, rec.Status, ob.Text, rec.Where)
+		fmt.Printf("  obligation %s [%s] %s at %s\n", g.name, rec.Status, ob.Text, rec.Where)
 	}
 	for _, ge := range genErrors {
 		violations++
@@ -478,7 +542,7 @@ func cmdCheck(o options, prop string) int {
 	ev := map[string]any{
 		"property_id": prop, "tier": o.tier, "seed": o.seed, "level": level,
 		"coverage": map[string]any{
-			"obligations": len(claimed) - len(knownNames), "discharged": discharged,
+			"obligations": nObligations - len(knownNames), "discharged": discharged, "queries": len(claimed),
 			"checker_cmd":              fmt.Sprintf("cd /verif && ./check %s %s", o.tier, prop),
 			"trusted_base":             trusted,
 			"samples":                  samples,
@@ -498,7 +562,7 @@ func cmdCheck(o options, prop string) int {
 	}
 	os.MkdirAll(filepath.Join(o.out, "evidence"), 0o755)
 	writeJSON(filepath.Join(o.out, "evidence", prop+".json"), ev)
-	fmt.Printf("%s %s: %d obligations, %d discharged, %d known findings, %d violations, %.1fs (solver %.1fs)\n", prop, o.tier, len(claimed), discharged, len(knownNames), violations, time.Since(t0).Seconds(), solverTime)
+	fmt.Printf("%s %s: %d obligations, %d discharged, %d known findings, %d violations, %.1fs (solver %.1fs)\n", prop, o.tier, nObligations, discharged, len(knownNames), violations, time.Since(t0).Seconds(), solverTime)
 	if violations > 0 {
 		return 1
 	}
